@@ -24,23 +24,26 @@ fn run_case(case: &Case) -> Result<Vec<OpOut>, String> {
 }
 
 /// outputs of the ops that completed, and what stopped the case (panic / hang) if anything did
-fn run_case2(case: &Case) -> (Vec<OpOut>, Option<String>) {
-    let partial: std::sync::Arc<std::sync::Mutex<Vec<OpOut>>> = Default::default();
+fn run_case2(case: &Case) -> (Vec<OpOut>, Option<String>) { let (o, _, c) = run_case3(case, false); (o, c) }
+
+/// as `run_case2`; with `state` also the state digest (eng::state_digest) after every completed op
+fn run_case3(case: &Case, state: bool) -> (Vec<OpOut>, Vec<String>, Option<String>) {
+    let partial: std::sync::Arc<std::sync::Mutex<(Vec<OpOut>, Vec<String>)>> = Default::default();
     let p2 = partial.clone();
     let case2 = case.clone();
     // watchdog: the case runs on its own thread; a synchronous self-deadlock or livelock inside the
     // engine (which no tokio timeout can interrupt) is reported as a hang and the thread is abandoned
     let (tx, rx) = std::sync::mpsc::channel();
-    let _ = std::thread::Builder::new().stack_size(256 << 20).spawn(move || { let r = run_case_inner(&case2, p2); let _ = tx.send(r); });
+    let _ = std::thread::Builder::new().stack_size(256 << 20).spawn(move || { let r = run_case_inner(&case2, p2, state); let _ = tx.send(r); });
     let r = match rx.recv_timeout(std::time::Duration::from_secs(8)) {
         Ok(r) => r,
         Err(_) => Err("hang (watchdog): the case did not finish within 8 s of wall time".to_string()),
     };
-    let outs = partial.lock().unwrap().clone();
-    match r { Ok(()) => (outs, None), Err(m) => (outs, Some(m)) }
+    let (outs, states) = partial.lock().unwrap().clone();
+    match r { Ok(()) => (outs, states, None), Err(m) => (outs, states, Some(m)) }
 }
 
-fn run_case_inner(case: &Case, partial: std::sync::Arc<std::sync::Mutex<Vec<OpOut>>>) -> Result<(), String> {
+fn run_case_inner(case: &Case, partial: std::sync::Arc<std::sync::Mutex<(Vec<OpOut>, Vec<String>)>>, state: bool) -> Result<(), String> {
     let rt = tokio::runtime::Builder::new_current_thread().enable_all().build().unwrap();
     let case2 = case.clone();
     let r = std::panic::catch_unwind(std::panic::AssertUnwindSafe(|| {
@@ -53,7 +56,11 @@ fn run_case_inner(case: &Case, partial: std::sync::Arc<std::sync::Mutex<Vec<OpOu
             for op in &case2.ops {
                 let fut = run_op(&engine, &sh, op);
                 match tokio::time::timeout(std::time::Duration::from_secs(3), fut).await {
-                    Ok(o) => partial.lock().unwrap().push(o),
+                    Ok(o) => {
+                        // read-only dump of the engine's bookkeeping, taken while nothing is in flight
+                        let d = if state { state_digest(&engine, &case2.program).await } else { String::new() };
+                        let mut g = partial.lock().unwrap(); g.0.push(o); g.1.push(d);
+                    }
                     Err(_) => return Err(format!("hang at op {}", op.render())),
                 }
             }
@@ -218,6 +225,10 @@ fn main() {
     let mut samples: Vec<String> = vec![];
     let mut crashes = 0u64;
     let mut exp_lines: Vec<String> = vec![];
+    let with_state = a.rest.iter().any(|x| x == "--state");
+    // `--state-max N`: digests for the first N cases only (bounds the size of thorough runs); the others get `-`
+    let state_max: usize = a.rest.iter().position(|x| x == "--state-max").map(|i| a.rest[i + 1].parse().unwrap()).unwrap_or(usize::MAX);
+    let mut state_lines: Vec<String> = vec![];
     let mut cases: Vec<Case> = vec![];
     if let Some(rp) = &a.replay {
         let text = std::fs::read_to_string(rp).unwrap();
@@ -239,8 +250,9 @@ fn main() {
         }
     }
     if let Some(i) = a.rest.iter().position(|x| x == "--dump") { let idx: usize = a.rest[i + 1].parse().unwrap(); print!("{}", cases[idx].render()); return; }
-    for case in &cases {
+    for (case_no, case) in cases.iter().enumerate() {
         evals += 1;
+        let digest_this = with_state && case_no < state_max;
         let text = case.render();
         let h = { use std::hash::{Hash, Hasher}; let mut s = std::collections::hash_map::DefaultHasher::new(); text.hash(&mut s); s.finish() };
         if nontrivial(case) { distinct.insert(h); }
@@ -251,7 +263,13 @@ fn main() {
         if samples.len() < 3 && nontrivial(case) { samples.push(text.clone()); }
         let with_execs = !case.program.has_unordered();
         {
-            let (outs, crash) = run_case2(case);
+            let (outs, states, crash) = run_case3(case, digest_this);
+            if with_state {
+                state_lines.push("case".into());
+                for _ in 0..case.program.nodes.len() { state_lines.push("ok".into()); }
+                state_lines.extend(states.iter().map(|s| if digest_this { s.clone() } else { "-".to_string() }));
+                if crash.is_some() { state_lines.push("crash".into()); }
+            }
             let mut lines = text.lines();
             out.line(lines.next().unwrap(), "case");
             for _ in 0..case.program.nodes.len() { out.line(lines.next().unwrap(), "ok"); }
@@ -288,5 +306,6 @@ fn main() {
     rep.push_str(&format!("\"oracle_failures\":[{}]", failures.iter().map(|f| format!("{{\"sig\":{},\"desc\":{},\"case\":{}}}", jstr(&f.sig), jstr(&f.desc), jstr(&f.case))).collect::<Vec<_>>().join(",")));
     rep.push('}');
     std::fs::write(format!("{}/expect.txt", a.out), exp_lines.join("\n") + "\n").unwrap();
+    if with_state { std::fs::write(format!("{}/state_impl.txt", a.out), state_lines.join("\n") + "\n").unwrap(); }
     out.finish(&rep);
 }
